@@ -5,13 +5,10 @@ import ast
 import math
 from fractions import Fraction as F
 
-from ..deps import DepAnalysis, clean, flat
-from ..flow import enumerate_paths
 from ..parloop import classify_writes, is_parallel, is_numba, prange_loops, FIXTURE
-from ..peval import Evaluator, Model, Unsupported, ReturnValue, RaisedInModel
-from ..poly import Poly, Rat, S
-from ..source import norm, const_value, walk_no_nested, SourceTree, AnalysisError, FuncInfo
-from .common import is_name, params, returns_of, calls_in, root_name
+from ..peval import Evaluator, Model, Unsupported, RaisedInModel
+from ..source import norm, SourceTree
+from .common import params
 
 EXPLANATION = "(R1) every write inside a prange body of plot/utils.py classified: no shared read-modify-write (private histograms reduced after the loop), batch mode followed over several thread counts; (R2) kernel index logic over all orderings of a coordinate against the bin edges; (R5) histogram2d/_parse_limit/finmin/finmax interpreted over token Arrays with symbolic numpy values: explicit limits converted to the axis unit and log10'd on log axes, a missing limit is the FINITE min/max and the automatic range strictly contains the data; (R6) axis separation, default layer = ones, one kernel slot per layer, mean = slot/counts, mask = (counts == 0)."
 NOT_DECIDED = 'floating-point edge effects at bin boundaries; numba scheduling (covered by the write classification, not by execution)'
